@@ -152,7 +152,7 @@ Example exh_path_six :
   exec2_num exh_ctx (EFunc s_string_length [exh_b]) = exec2_num exh_ctx (ENumLit [48]%N).
 Proof. vm_compute. repeat split; reflexivity. Qed.
 
-(* the [aware] parameter is not decoration: locationPath(.., XalanDOMString&) converting through
+(* the [aware] flag is not decoration: locationPath(.., XalanDOMString&) converting through
    XObject::string(list, result) instead of XObject::string(list, executionContext, result) appends
    the stripped blank *)
 Example exh_context_free_string_differs :
